@@ -41,7 +41,7 @@ pub fn clear_panic() {
     LAST_PANIC.with(|p| *p.borrow_mut() = None);
 }
 
-fn take_panic() -> String {
+pub fn take_panic() -> String {
     LAST_PANIC.with(|p| p.borrow_mut().take()).unwrap_or_else(|| "?: <unknown panic>".into())
 }
 
@@ -105,7 +105,7 @@ fn entry_info(e: &cfb::Entry) -> EntryInfo {
     }
 }
 
-fn io_err(e: std::io::Error) -> Res {
+pub fn io_err(e: std::io::Error) -> Res {
     Res::Err(ErrKind::of(&e), e.to_string())
 }
 
@@ -480,7 +480,7 @@ impl Lib {
     }
 }
 
-pub fn dump_api(cf: &mut CompoundFile<SimDisk>, skip: &[String]) -> Result<Dump, Res> {
+pub fn dump_api<F: std::io::Read + std::io::Seek>(cf: &mut CompoundFile<F>, skip: &[String]) -> Result<Dump, Res> {
     let entries: Vec<cfb::Entry> = cf.walk().collect();
     if entries.is_empty() || !entries[0].is_root() {
         return Err(Res::Err(ErrKind::Other, "walk() did not start with the root".into()));
